@@ -106,6 +106,7 @@ func c15(c *core.Ctx) string {
 	c15Puback(c)
 	c15ResendLoop(c)
 	c15Registry(c)
+	c15QueueWriters(c)
 	return "Static shape rules on the MQTT delivery path: the fan-out loop cannot be left early and publishes iff subQoS >= qos and the client is connected (path-sensitive, all paths of sendMsgToClient); QoS1 pending bookkeeping precedes the write under the session lock; PUBACK carries the incoming id; handler order limiter→pipeline→process. Not decided: socket delivery, retransmission timing, queue-full drops."
 }
 
